@@ -202,6 +202,12 @@ class Prober:
             want = canon(f.py_func(*args))
         except Exception as e:
             res.count("interpreter_rejects:" + type(e).__name__)
+            # observation only (the statement speaks of programs that return): what does compiled code do here?
+            try:
+                f(*args)
+                res.count(f"observed_not_judged:interpreter_raises_{type(e).__name__}_compiled_returns probe={label}")
+            except Exception:
+                res.count("observed_not_judged:interpreter_raises_and_compiled_code_fails_too")
             return "interp"
         try:
             got = canon(f(*args))
@@ -257,13 +263,13 @@ def _member(why, names):
     return "?"
 
 
-def _vec(r, system, mom, core=True):
+def _vec(r, system, mom, core=True, causal="timelike", forward=True):
     from .. import backends as B
     from ..engine import LVec
 
     dim = len(system) + 1
     while True:
-        rv, _ = gen.vec4(r, core=True, causal="timelike", forward=True) if dim == 4 else gen.vec(r, dim, core=True)
+        rv, _ = gen.vec4(r, core=True, causal=causal, forward=forward) if dim == 4 else gen.vec(r, dim, core=True)
         try:
             l = LVec(rv, system, mom)
             return B.mk_obj(system, l.f64()[0], mom), float(max(abs(c) for c in rv.comps()))
@@ -318,6 +324,8 @@ def run_unary(spec, tier, seed, res, P, methods, attrs, funcs):
         for o in R.EULER_ORDERS:
             add(f'v.rotate_euler(a, b, c, "{o}")', f"rotate_euler:{o}")
         add("v.rotate_euler(a, b, c)", "rotate_euler:default")
+        add('v.rotate_euler(a, b, c, "ZXZ")', "rotate_euler:upper-case-order")
+        add('v.rotate_euler(a, b, c, order="Yzx")', "rotate_euler:mixed-case-order-keyword")
     if M("rotate_nautical"):
         add("v.rotate_nautical(a, b, c)", "rotate_nautical")
     if M("rotate_quaternion"):
@@ -350,7 +358,7 @@ def run_unary(spec, tier, seed, res, P, methods, attrs, funcs):
     # (d) chains of two and three calls
     chains = ["v.scale(a).unit()", "v.rotateZ(b).scale(a).rho", "v.to_xy().rotateZ(b).phi", "(v + v).scale(a).rho2", "v.unit().rho"]
     if dim >= 3:
-        chains += ["v.rotateX(a).rotateY(b).rotateZ(c)", "v.to_rhophieta().scale3D(a).mag", "v.rotate_axis(v.rotateX(b), a).z", "v.cross(v.rotateY(b)).mag" if dim == 3 else "v.to_Vector3D().cross(v.rotateY(b).to_Vector3D()).mag",
+        chains += ["v.rotateX(a).rotateY(b).rotateZ(c)", "v.to_rhophieta().scale3D(a).mag", "v.rotate_axis(v.rotateX(b), a).z" if dim == 3 else "v.rotate_axis(v.rotateX(b).to_Vector3D(), a).z", "v.cross(v.rotateY(b)).mag" if dim == 3 else "v.to_Vector3D().cross(v.rotateY(b).to_Vector3D()).mag",
                    "v.to_Vector2D().to_Vector3D().z", "v.unit().scale(a).theta"]
     if dim == 4:
         chains += ["v.boostX(beta=a / 4).boostY(beta=b / 4).boostZ(beta=c / 4)", "v.boost_p4(v.boostX(beta=a / 4)).tau", "v.to_xyzt().boost_beta3(v.to_beta3().scale(0.5))",
@@ -363,9 +371,24 @@ def run_unary(spec, tier, seed, res, P, methods, attrs, funcs):
            "numpy.absolute(v)", "numpy.square(v)", "numpy.sqrt(v)", "numpy.cbrt(v)", "numpy.power(v, a)", "numpy.negative(v)",
            "numpy.positive(v)", "numpy.add(v, v)", "numpy.subtract(v, v.scale(0.5))", "numpy.multiply(v, a)", "numpy.multiply(a, v)",
            "numpy.divide(v, a)", "numpy.matmul(v, v)"]
-    src = "def probe(v, a):\n    return (" + ", ".join(ops) + ",)\n"
+    ops += ["numpy.power(v, 2)", "numpy.power(v, 2.0)", "v ** 2.0", "v ** two", "numpy.power(v, two)", "v ** 3", "numpy.power(v, 3)"]
+    src = "def probe(v, a, two):\n    return (" + ", ".join(ops) + ",)\n"
     v, scale = _vec(r, system, mom)
-    P.run("operators", cell, src, (v, 1.5), scale**2 + 8, unpack=ops)
+    P.run("operators", cell, src, (v, 1.5, 2), scale**3 + 8, unpack=ops)
+    if dim == 4:
+        # spacelike and backward-pointing operands are finite and well-conditioned too (away from the light cone)
+        names4 = [a for a in names if a not in ("beta", "gamma", "rapidity")]
+        src_a = "def probe(v):\n    return (" + ", ".join(f"v.{a}" for a in names4) + ",)\n"
+        ops_s = [o for o in ops if "sqrt" not in o and "cbrt" not in o and "** a" not in o and "power(v, a)" not in o]
+        src_o = "def probe(v, a, two):\n    return (" + ", ".join(ops_s) + ",)\n"
+        for causal, fwd in (("spacelike", True), ("spacelike", False), ("timelike", False)):
+            if system[2] == "tau" and not fwd:
+                continue  # tau storage cannot hold a negative time
+            v, scale = _vec(r, system, mom, causal=causal, forward=fwd)
+            lab = f"{causal}:{'fwd' if fwd else 'bwd'}"
+            P.run(f"attributes[{lab}]", cell, src_a, (v,), scale**2, unpack=names4)
+            P.run(f"operators[{lab}]", cell, src_o, (v, 1.5, 2), scale**3 + 8, unpack=ops_s)
+            P.run(f"conversions[{lab}]", cell, "def probe(v):\n    return (" + ", ".join(f"v.{m}()" for m in conv) + ",)\n", (v,), scale, unpack=conv)
 
 
 BINARY = {
@@ -408,6 +431,12 @@ def run_binary(spec, tier, seed, res, P, methods, attrs, funcs):
             w, sc2 = _vec(r, s_other, m2)
             cell = f"{R.sysname(system)}|{R.sysname(s_other)}|{int(m1)}{int(m2)}"
             P.run("binary-same-dimension", cell, probe_src(regs), (v, w), (sc1 + sc2) ** 2 * 4, unpack=regs)
+    if dim < 4 and tuple(system) == R.SYSTEMS[dim][0]:
+        # operands of unequal dimension: the interpreter raises TypeError; recorded, not judged
+        v, _ = _vec(r, system, False)
+        w, _ = _vec(r, R.SYSTEMS[dim + 1][0], False)
+        for n in ("add", "dot", "is_parallel", "is_antiparallel"):
+            P.run(f"unequal-dimensions:{n}", f"{dim}D|{dim + 1}D", f"def probe(v, w):\n    return v.{n}(w)\n", (v, w), 100.0)
     if dim == 3:
         for s_other in r.sample(others, nother):
             v, sc1 = _vec(r, system, True)
@@ -559,6 +588,13 @@ def finalize(total, tier, seed):
               "vector.obj", "awkward-loop"):
         if p not in probes:
             total.inconc(f"probe family {p} never compared")
+    # every probe family must have been compared for every dimension it applies to (a multi-return probe that the
+    # interpreter rejects is silently skipped, which would hide a whole family for that dimension)
+    for p, dims in (("attributes", (2, 3, 4)), ("chains", (2, 3, 4)), ("operators", (2, 3, 4)), ("scalar-argument-methods", (2, 3, 4)),
+                    ("binary-same-dimension", (2, 3, 4))):
+        for d in dims:
+            if not any(c.split("|")[0] == p and len(c.split("|")[1].split("_")) == d - 1 for c in total.cells):
+                total.inconc(f"probe family {p} never compared for {d}-D vectors")
     return {"nrt_supplementary": {k: total.counters.get(k, 0) for k in ("nrt_alloc", "nrt_free", "nrt_mi_alloc", "nrt_mi_free")},
             "probe_families": sorted(probes), "specializations_compiled": total.counters.get("specializations_compiled", 0),
             "interpreter_rejections": {k: v for k, v in total.counters.items() if k.startswith("interpreter_rejects")},
